@@ -33,7 +33,7 @@ def _db_uses(ctx):
                       f.loc(node), 'object table use is encapsulated (%s)' % why,
                       'the object table (or one of its id lists) escapes or is used in an unconfirmed way: %s' % why,
                       stmt=norm(_stmt(node))[:120])
-    ctx.floor('C02.1', n, 7, 'uses of ConnectionImpl.db')
+    ctx.floor('C02.1', n, 3, 'uses of ConnectionImpl.db')
 
 
 def _stmt(n):
@@ -89,6 +89,11 @@ def _classify_use(f, node, level):
     return False, 'the %s is used in %s' % (what, norm(p)[:80])
 
 
+def cdb(t):
+    """canonical spelling of object-table terms: d.get(k) names the same entry as d[k]"""
+    return re.sub(r'self\.db\.get\((\w+)\)', r'self.db[\1]', t or '')
+
+
 def run(ctx):
     repo = ctx.repo
     cg = repo.callgraph()
@@ -108,19 +113,31 @@ def run(ctx):
     # ---- C02.1 writers of the object table ------------------------------------------------------
     def empty_list_store(w):
         st = w.stmt
-        return w.kind == 'substore' and isinstance(st, ast.Assign) and isinstance(st.value, ast.List) and not st.value.elts
+        if not (w.kind == 'substore' and isinstance(st, ast.Assign)):
+            return False
+        v = st.value
+        if isinstance(v, ast.Name):
+            # a local that was bound to a fresh empty list (the store-iff-absent obligation below still applies)
+            defs = [n.value for n in w.func.body_nodes() if isinstance(n, ast.Assign) and any(isinstance(t, ast.Name) and t.id == v.id for t in n.targets)]
+            fresh = [d for d in defs if isinstance(d, ast.List) and not d.elts]
+            reads = [d for d in defs if re.match(r'^self\.db(\.get\(\w+\)|\[\w+\])$', norm(d))]
+            return bool(fresh) and len(fresh) + len(reads) == len(defs)
+        return isinstance(v, ast.List) and not v.elts
 
     def append_only(w):
         return w.kind == 'mutate' and w.via == 'append'
     check_writers(ctx, 'C02.1', CI, 'db', [('ConnectionImpl.__init__', lambda w: w.kind == 'store' and w.fresh),
                                            ('ConnectionImpl.create_object', empty_list_store),
-                                           ('ConnectionImpl.create_object', append_only)], floor=3)
+                                           ('ConnectionImpl.create_object', append_only)], floor=2)
     _db_uses(ctx)
     cpaths = paths_of(repo, f_create)
     # the empty-list store happens only when the id is absent
     def m_in_db(a):
-        if re.match(r'^(\w+) in self\.db$', a.text):
+        t = cdb(a.text)
+        if re.match(r'^(\w+) in self\.db$', t) or re.match(r'^self\.db\[\w+\]$', t):
             return ('present', True)
+        if re.match(r'^self\.db\[\w+\] is None$', t):
+            return ('present', False)
         return None
     probs = check_reach(cpaths, lambda e: e.kind == 'store' and e.target and re.match(r'^self\.db\[\w+\]$', e.target),
                         m_in_db, lambda F: (not F['present']) if F.get('guard_ok', True) else None, universe=['present'],
@@ -148,8 +165,8 @@ def run(ctx):
     n_app = 0
     for p in cpaths:
         for e in p.events:
-            if e.kind == 'call' and e.ftext and re.match(r'^self\.db\[(\w+)\]\.append$', e.ftext):
-                k = re.match(r'^self\.db\[(\w+)\]\.append$', e.ftext).group(1)
+            if e.kind == 'call' and e.ftext and re.match(r'^self\.db\[(\w+)\]\.append$', cdb(e.ftext)):
+                k = re.match(r'^self\.db\[(\w+)\]\.append$', cdb(e.ftext)).group(1)
                 n_app += 1
                 v = e.args[0] if e.args else None
                 site = f_create.loc(e.node)
@@ -159,16 +176,16 @@ def run(ctx):
                 gen = arg_by_name(v, ro_init, 'generation')
                 oid = arg_by_name(v, ro_init, 'obj_id')
                 conn = arg_by_name(v, ro_init, 'conn')
-                gtxt = norm(gen)
+                gtxt = cdb(norm(gen))
                 good_gen = gtxt == 'len(self.db[%s])' % k
                 # no mutation of the table between the len() and the append
                 if good_gen:
-                    len_ev = [x for x in p.events if x.kind == 'call' and x.text == gtxt and p.events.index(x) < p.events.index(e)]
+                    len_ev = [x for x in p.events if x.kind == 'call' and cdb(x.text) == gtxt and p.events.index(x) < p.events.index(e)]
                     if len_ev:
                         between = p.events[p.events.index(len_ev[-1]) + 1:p.events.index(e)]
                         for b in between:
                             if (b.kind in ('store', 'del', 'aug') and b.target and b.target.startswith('self.db')) or \
-                                    (b.kind == 'call' and b.ftext and b.ftext.startswith('self.db') and b.ftext.split('.')[-1] in
+                                    (b.kind == 'call' and b.ftext and cdb(b.ftext).startswith('self.db[') and b.ftext.split('.')[-1] in
                                      ('append', 'pop', 'insert', 'remove', 'clear', 'extend', 'sort', 'reverse')):
                                 good_gen = False
                 if gtxt == 'len(self.db[%s]) - 1' % k:
@@ -183,7 +200,7 @@ def run(ctx):
                           'appended object has connection %s' % norm(conn))
                 # the method returns the appended object
                 if p.outcome[0] == 'return':
-                    ctx.check(norm(p.outcome[1]) == norm(v), 'C02.2', 'create:returns-appended', site,
+                    ctx.check(cdb(norm(p.outcome[1])) == cdb(norm(v)), 'C02.2', 'create:returns-appended', site,
                               'create_object returns the object it appended')
     ctx.floor('C02.2', n_app, 3, 'paths of create_object that append')
     # seed
